@@ -966,6 +966,7 @@ def run(ctx):
     mods = ["TomlVerif.Props.C07", "driver"]
     lake_build(ctx, mods, {"TomlVerif.Props.C07": "property theorems"})
     audit(ctx, "TomlVerif.Props.C07", "TomlVerif/Props/C07.lean")
+    extra_props(ctx, ["C07Text"])
     if ctx.tier == "thorough":
         leanchecker(ctx, "TomlVerif.Props.C07")
     tvh = cargo_build(ctx)
@@ -1020,6 +1021,7 @@ def run(ctx):
     # ---- oracles + correspondence ------------------------------------------------------------
     classes = {}          # class -> list of (line, v, f, bads, origin)
     ndis = 0
+    ntexts = 0
     first = None
     hist_route = collections.Counter()
     hist_kind = collections.Counter()
@@ -1066,6 +1068,17 @@ def run(ctx):
                 if first is None or len(ln) < len(first[0]):
                     first = (ln, r, f.get(r), fm.get(r))
                 break
+        else:
+            # the texts themselves (the definitions Props/C07Text.lean is about), where the model has one
+            for r in ("ts", "tp", "es", "ep"):
+                mt = fm.get(r + ".x")
+                if mt not in (None, "n/a", "-"):
+                    ntexts += 1
+                    if f.get(r + ".x", "-") != mt:
+                        ndis += 1
+                        if first is None or len(ln) < len(first[0]):
+                            first = (ln, r + ".x", f.get(r + ".x"), mt)
+                        break
         for n in walk(v):
             hist_kind[n[0]] += 1
             if n[0] == "map":
@@ -1129,7 +1142,7 @@ def run(ctx):
         "routes": dict(hist_route), "node_kinds": dict(hist_kind), "depth": {str(k): v for k, v in sorted(hist_depth.items())},
         "typed_per_type": dict(hist_type), "none_map_values_omitted": none_map_values, "malformed_datetime_struct_probes_outside_the_oracles": malformed_dt,
         "defect_classes": {k: len(v) for k, v in classes.items()}, "unclassified_failures": unclassified,
-        "traces_validated_against_impl": len(all_lines), "disagreements": ndis,
+        "traces_validated_against_impl": len(all_lines), "disagreements": ndis, "route_texts_compared_byte_for_byte": ntexts,
         "oracles": ["an ok route's text re-parses (toml and toml_edit agree) and means exactly the documented image of the value (computed here from the value, not by the model)",
                     "all ok routes therefore agree", "an error only for: no image (None/unit misplaced, non-string key, beyond i64, bad date-time), non-table root, struct/tuple variant at the root for toml::to_string*/Table::try_from",
                     "typed: from_str (both crates) / from_document / try_into give back the value (NaN = NaN, every other float by bits)"],
